@@ -114,7 +114,7 @@ def _project(ctx):
     import signac
 
     if "p" not in _state:
-        d = ctx.scratch("proj")
+        d = ctx.scratch("proj", keep=True)
         _state["p"] = signac.init_project(d)
         _state["text2id"] = {}
         _state["id2text"] = {}
